@@ -284,8 +284,8 @@ def _refine_features(case):
     clash = [(x, y) for x, y in itertools.combinations(domains, 2) if not x["of"] & y["of"] and _overlaps(prof, x, y)]
     if clash:
         feats.add("overlapping_domains")
-    # a short (incomplete) hit that overlaps another hit or mergeable pair beyond the margin
-    if any(len(x["of"]) == 1 and not _complete(prof, x) for pair in clash for x in pair):
+    # a short (incomplete) hit, or a mergeable pair that stays incomplete, overlapping another hit or pair beyond the margin
+    if any(not _complete(prof, x) for pair in clash for x in pair):
         feats.add("incomplete_hit_overlaps_a_domain")
     # the middle of a chain / the hub of a star: a domain that overlaps two others
     for mid in domains:
